@@ -83,28 +83,49 @@ def t3(rep, tier, seed):
                         rep.violation("spec", f"`A then B` differs from `A | B` through intermediate format {mid} (input with empty cells and all-empty rows)",
                                       {"A": A, "B": B, "exit": [one[0], m[0], two[0]], "then_head": one[1][:400].decode(errors="replace"), "pipe_head": two[1][:400].decode(errors="replace")}, True)
         # files with different headers, an empty file, a header-only file: concatenation of each alone
-        texts = [b"a,b\n1,2\n3,4\n", b"", b"c\n5\n", b"a,b\n", b"a,b\n6,7\n"]
-        fns = []
-        for i, t in enumerate(texts):
-            f = os.path.join(base, f"m{i}.csv")
-            open(f, "wb").write(t)
-            fns.append(f)
-        prog = ["--icsv", "--ojsonl", "put", "-q", "print FNR . \":\" . FILENUM . \":\" . NF . \":\" . joink($*, \",\"); end{print \"end:\" . NR}"]
-        allf = t3util.run(mlr, prog + fns)
-        each = [t3util.run(mlr, prog + [f]) for f in fns]
-        counts["multi_file"] += 1
-        def lines(b):
-            return [l for l in b.decode().splitlines() if not l.startswith("end:")]
-        want = []
-        for i, e in enumerate(each):
-            for l in lines(e[1]):
-                p = l.split(":")
-                want.append(":".join([p[0], str(i + 1)] + p[2:]))
-        got = lines(allf[1])
-        endl = [l for l in allf[1].decode().splitlines() if l.startswith("end:")]
-        if allf[0] != 0 or got != want or endl != [f"end:{len(want)}"]:
-            rep.violation("spec", "reading files f1..fn is not the concatenation of reading each alone (FNR, FILENUM, field names per file, final NR)",
-                          {"argv": ["mlr"] + prog + ["m0.csv..m4.csv"], "inputs": [t.decode() for t in texts], "observed": allf[1].decode()[:600], "wanted_lines": want, "exit": allf[0]}, True)
+        # (per reader: explicit headers, implicit/positional headers with files of DIFFERING widths, ragged, key-value and JSON inputs)
+        configs = [
+            (["--icsv"], [b"a,b\n1,2\n3,4\n", b"", b"c\n5\n", b"a,b\n", b"a,b\n6,7\n"]),
+            (["--icsv", "--implicit-csv-header"], [b"1,2\n3,4\n", b"", b"5\n", b"6,7,8\n9,10,11\n", b"12,13\n"]),
+            (["--icsv", "--hi"], [b"1,2,3\n", b"4\n5\n", b"6,7\n"]),
+            (["--icsv", "--allow-ragged-csv-input"], [b"a,b\n1,2,3\n4\n", b"c\n5,6\n", b"a,b,c,d\n7\n"]),
+            (["--icsv", "--implicit-csv-header", "--allow-ragged-csv-input"], [b"1,2\n3\n", b"4,5,6\n7\n", b"8\n"]),
+            (["--icsvlite"], [b"a,b\n1,2\n\nc\n3\n", b"", b"c\n5\n", b"a,b\n6,7\n"]),
+            (["--icsvlite", "--implicit-csv-header"], [b"1,2\n3,4\n", b"5\n", b"6,7,8\n"]),
+            (["--itsv"], [b"a\tb\n1\t2\n", b"", b"c\n5\n", b"a\tb\n6\t7\n"]),
+            (["--itsv", "--implicit-tsv-header"], [b"1\t2\n", b"5\n", b"6\t7\t8\n"]),
+            (["--ipprint"], [b"a b\n1 2\n", b"", b"c\n5\n", b"a   b\n6   7\n"]),
+            (["--ipprint", "--hi"], [b"1 2\n", b"5\n", b"6 7 8\n"]),
+            (["--inidx", "--ifs", ","], [b"1,2\n", b"", b"5\n", b"6,7,8\n"]),
+            (["--idkvp"], [b"a=1,b=2\n", b"", b"c=5\n", b"a=6\n"]),
+            (["--ixtab"], [b"a 1\nb 2\n\na 3\n", b"", b"c 5\n", b"a 6\nb 7\n"]),
+            (["--ijsonl"], [b'{"a":1,"b":2}\n', b"", b'{"c":5}\n{"a":6}\n']),
+            (["--ijson"], [b'[{"a":1,"b":2}]', b"", b'{"c":5}{"a":6}', b"[]"]),
+        ]
+        for ci, (flags, texts) in enumerate(configs):
+            fns = []
+            for i, t in enumerate(texts):
+                f = os.path.join(base, f"m{ci}_{i}.txt")
+                open(f, "wb").write(t)
+                fns.append(f)
+            prog = flags + ["--ojsonl", "put", "-q", "print FNR . \":\" . FILENUM . \":\" . NF . \":\" . joink($*, \",\") . \":\" . joinv($*, \",\"); end{print \"end:\" . NR}"]
+            allf = t3util.run(mlr, prog + fns)
+            each = [t3util.run(mlr, prog + [f]) for f in fns]
+            counts["multi_file"] += 1
+            def lines(b):
+                return [l for l in b.decode().splitlines() if not l.startswith("end:")]
+            want = []
+            for i, e in enumerate(each):
+                for l in lines(e[1]):
+                    p = l.split(":")
+                    want.append(":".join([p[0], str(i + 1)] + p[2:]))
+            got = lines(allf[1])
+            endl = [l for l in allf[1].decode().splitlines() if l.startswith("end:")]
+            if any(e[0] != 0 for e in each):
+                continue    # a file this reader rejects on its own: outside the statement
+            if allf[0] != 0 or got != want or endl != [f"end:{len(want)}"]:
+                rep.violation("spec", "reading files f1..fn is not the concatenation of reading each alone (FNR, FILENUM, field names and values per file, final NR)",
+                              {"argv": ["mlr"] + prog + ["f1..fn"], "inputs": [t.decode() for t in texts], "observed": allf[1].decode()[:600], "stderr": allf[2].decode(errors="replace")[:300] if len(allf) > 2 else "", "wanted_lines": want, "exit": allf[0]}, True)
         # NF is the current field count even mid-expression
         nf2 = t3util.run(mlr, ["--icsv", "--ojson", "put", "$n1 = NF; $n2 = NF; unset $a; $n3 = NF", fn])
         counts["nf"] += 1
@@ -127,7 +148,7 @@ def check(tier, seed):
             "T2: real Stream in-process: `A then B` vs `A` piped into `B` through JSON for random chains of 31 type-stable verbs; contexts printed by a DSL program over file lists with empty files under batch sizes 1/2/500, compared with the Lean model (harness/c04.go)",
             "T3: the real binary on files, stdin, --from, gzip/bzip2/zlib by extension and by flag, --prepipe/--prepipex; six intermediate formats; per-file headers",
         ],
-        rule="T2: seeded streams x 6 random (A, B) pairs of chains of length 1-2 from 31 type-stable verbs; 30-400 file lists of 1-4 files with 0,1,2,3-7 or 499-502 records x batch sizes 1,2,500. T3: 12 input sources for one 1202-record file; 6 (A,B) pairs x 6 intermediate formats; 5-file list with differing headers, empty and header-only files; NF mid-expression",
+        rule="T2: seeded streams x 6 random (A, B) pairs of chains of length 1-2 from 31 type-stable verbs; 30-400 file lists of 1-4 files with 0,1,2,3-7 or 499-502 records x batch sizes 1,2,500. T3: 12 input sources for one 1202-record file; 6 (A,B) pairs x 6 intermediate formats; 16 reader configurations (CSV, CSV-lite, TSV, PPRINT with explicit and implicit headers, ragged, headerless; NIDX, DKVP, XTAB, JSON, JSON Lines) x 3-5-file lists with differing headers/widths, empty and header-only files; NF mid-expression",
         extra=t3,
     )
 
